@@ -731,12 +731,20 @@ func (l *lexer) lexHeredoc() action {
 // scanHeredoc reads the pending here-documents. It returns false when
 // lexing cannot continue (error, or end of input).
 func (l *lexer) scanHeredoc() bool {
-	find := func(r *ast.Redir, delim string) bool {
+	find := func(r *ast.Redir, delim string, eof bool) bool {
 		// the line that has just been read, line continuations
 		// included, begins at the earliest part after the last
 		// <newline> (positions do not tell: they stand still inside
 		// the text of an alias)
 		start, line := -1, ""
+		if !eof {
+			// an empty line
+			if n := len(l.word); n == 0 {
+				start = 0
+			} else if w, ok := l.word[n-1].(*ast.Lit); ok && strings.HasSuffix(w.Value, "\n") {
+				start = n
+			}
+		}
 		for i := len(l.word) - 1; i >= 0; i-- {
 			s := l.print(l.word[i:])
 			if strings.ContainsRune(s, '\n') {
@@ -786,7 +794,7 @@ func (l *lexer) scanHeredoc() bool {
 			r, err := l.read()
 			if err != nil {
 				if !l.heredoc.exists() {
-					if l.lit(); find(h, delim) {
+					if l.lit(); find(h, delim, true) {
 						return false
 					}
 				}
@@ -796,7 +804,7 @@ func (l *lexer) scanHeredoc() bool {
 			switch {
 			case r == '\n':
 				// <newline>
-				if l.lit(); find(h, delim) {
+				if l.lit(); find(h, delim, false) {
 					break Heredoc
 				}
 				// store <newline>
